@@ -15,9 +15,10 @@ On `fresh` steps a scenario on synthetic layouts runs (model's dsf_build: with /
 plus LENIENT layouts only mutagen accepts (wrong total size, pointer past EOF, pointer inside the header area, pointer at
 non-ID3 bytes, unsupported fmt version -- save works, delete refuses --, file shorter than the three chunk headers):
 mutagen's _DSFID3.save / module delete on them and the model must produce the same bytes / the same exception class."""
-import io, struct
+import io, re, struct
 import mutagen
-from common import hx, unhx, zs, zp
+import common
+from common import hx, unhx, zs, zp, coq_bytes
 
 KINDS = {"DSF"}
 LIMIT = 300_000
@@ -150,6 +151,53 @@ def check_step(ctx, kind, st):
         check_delete(ctx, "delete" if op == "delete" else "module delete", st.before, st.after, exc_name(st.exc), data)
 
 
+
+# ---------------------------------------------------------------------------------- vm_compute cross-check
+VM_BATCH = 12
+EXC_COQ = {"EStruct": "struct.error", "EValue": "ValueError", "EMutagen": "MutagenError", "EOutOfFuel": "FUEL"}
+COQ_CB = {"default": "cb_default", "keep": "cb_keep"}
+
+
+def coq_cb(mode):
+    return COQ_CB.get(mode) or "(cb_const %d)" % zp(mode[1:])
+
+
+def vm_note(ctx, term, reply):
+    """remember a small case (Gallina term, binary's reply); every VM_BATCH cases (first batch only per run) the same
+    terms are evaluated by vm_compute inside Coq and must agree with the extracted binary"""
+    st = ctx.notes.setdefault("dsf_vm", {"cases": [], "done": False})
+    if st["done"]:
+        return
+    st["cases"].append((term, reply))
+    if len(st["cases"]) >= VM_BATCH:
+        st["done"] = True
+        vm_crosscheck(ctx, st["cases"])
+        st["cases"] = []
+
+
+def vm_crosscheck(ctx, cases):
+    pre = ("From Coq Require Import ZArith List. Import ListNotations. "
+           "Require Import Base.Py Model.Fam_carrier Model.Fam_dsf. Open Scope Z_scope.")
+    res, log = common.vm_shard("fam_dsf", pre, [c[0] for c in cases])
+    if res is None or len(res) != len(cases):
+        ctx.disagree("fam.dsf.vm_shard", "vm_compute shard failed to run", {"log": str(log)[-300:]})
+        return
+    for (term, reply), r in zip(cases, res):
+        ctx.vm_cases += 1
+        r = r.replace("%Z", "")
+        m = re.match(r"Ok \[(.*)\]$", r)
+        if m:
+            got = "ok " + hx(bytes(int(x) for x in m.group(1).split(";") if x.strip()))
+        elif r.startswith("Raise "):
+            got = "raise " + EXC_COQ.get(r[6:].strip(), r[6:].strip())
+        else:
+            got = "unparsed " + r[:60]
+        want = " ".join(reply.split(" ")[:2])
+        if got != want:
+            ctx.disagree("fam.dsf.vm_shard", "extracted binary and vm_compute differ", {"term": term[:300], "binary": want[:120], "vm": got[:120]})
+            return
+
+
 # ---------------------------------------------------------------------------------- synthetic layouts
 def make_tag(rng, n):
     from mutagen.id3 import ID3, TIT2
@@ -239,6 +287,8 @@ def synthetic(ctx, data):
                 d2["mode"] = mode
                 reply = ctx.model.call("dsf_save_cb", hx(cur), hx(fd), zs(4), MODES[mode])
                 ctx.corr_cases += 1
+                if len(cur) + len(fd) < 900:
+                    vm_note(ctx, "dsf_save_cb %s %s 4 %s" % (coq_bytes(cur), coq_bytes(fd), coq_cb(MODES[mode])), reply)
                 parts = compare_bytes(ctx, "layout save", reply, after, exc, d2)
                 if parts and log and len(parts) >= 4 and parts[2] != "-":
                     if (zp(parts[2]), zp(parts[3])) != tuple(log[0][:2]):
@@ -249,7 +299,10 @@ def synthetic(ctx, data):
             else:
                 after, exc = run_impl(lambda b: moddelete(b), cur)
                 ctx.corr_cases += 1
-                compare_bytes(ctx, "layout module delete", ctx.model.call("dsf_delete", hx(cur)), after, exc, d2)
+                reply = ctx.model.call("dsf_delete", hx(cur))
+                if len(cur) < 900:
+                    vm_note(ctx, "dsf_delete %s" % coq_bytes(cur), reply)
+                compare_bytes(ctx, "layout module delete", reply, after, exc, d2)
                 if exc is None and not lenient:
                     check_after(ctx, "layout module delete", cur, after, None, d2)
             if exc is not None:
